@@ -311,8 +311,13 @@ Proof.
   constructor; [|apply IH; exact Hd]. intro Hin. apply Hn. apply in_map. exact Hin.
 Qed.
 
-Theorem set_file_roundtrip d rows : dset_ok d -> save_set d = Some rows ->
-  exists d', load_set (name_set (d_id d)) rows = Some d' /\ content_set d' = content_set d.
+(* the structure of the loaded set *)
+Lemma load_set_struct d rows : dset_ok d -> save_set d = Some rows ->
+  exists d' xs, load_set (name_set (d_id d)) rows = Some d'
+    /\ DInv d' (map snd (live_items (d_keys d))) xs
+    /\ Forall (drow_ok (map snd (live_items (d_keys d)))) xs
+    /\ Forall2 (drow_rel d) (live_items (d_data d)) xs
+    /\ d_id d' = d_id d.
 Proof.
   intros (Hid & Hnd & Hfit & Hids & Hndx) Hs. unfold save_set in Hs.
   destruct (map_opt _ (live_items (d_data d))) as [datarows|] eqn:Ed; [|discriminate]. injection Hs as <-.
@@ -347,6 +352,15 @@ Proof.
   { split; [exact HK|]. split; [rewrite F1; reflexivity|]. intro t. rewrite F2. reflexivity. }
   { cbn [app]. apply NoDup_map_some. rewrite map_map. rewrite <- (rel_tokens d _ _ Hrel). exact Hndx. }
   { exact Hok. }
-  exists d'. split; [exact Hf'|]. cbn [app] in HD.
-  rewrite (content_loaded d' ks xs HD Hok), (content_original d xs Hnd Hrel). rewrite F4, F3. reflexivity.
+  exists d', xs. cbn [app] in HD. split; [exact Hf'|]. split; [exact HD|]. split; [exact Hok|].
+  split; [exact Hrel|]. congruence.
+Qed.
+
+Theorem set_file_roundtrip d rows : dset_ok d -> save_set d = Some rows ->
+  exists d', load_set (name_set (d_id d)) rows = Some d' /\ content_set d' = content_set d.
+Proof.
+  intros Hok Hs. destruct (load_set_struct d rows Hok Hs) as (d' & xs & Hl & HD & Hx & Hrel & Hid).
+  exists d'. split; [exact Hl|].
+  destruct Hok as (_ & Hnd & _).
+  rewrite (content_loaded d' _ xs HD Hx), (content_original d xs Hnd Hrel), Hid. reflexivity.
 Qed.
